@@ -138,7 +138,13 @@ def shard(ctx, n):
     num, boolean = typed_exprs(num_vars=["x", "y", "z", "a", "b", "c", "<dt>", "<state>y"],
                                funcs=["f", "g", "<func>f", "h"], agg_vars=["arr", "<p>hist"],
                                floats=False, with_minmax=True)
-    expr = st.one_of(st.integers(1, 4).flatmap(num), st.integers(1, 4).flatmap(num), st.integers(1, 3).flatmap(boolean))
+    leafv = st.sampled_from(["x", "y", "z", "a", "<dt>"]).map(lambda n: ["var", n])
+    expo = st.sampled_from([-1, -2, 2, 3, -3]).map(lambda c: ["const", c])
+    # a power directly inside a power, both exponents constant (rewriting x**a**b is only valid with care)
+    nested_pow = st.tuples(leafv, expo, expo, st.integers(1, 2).flatmap(num)).map(
+        lambda t: ["sum", ["pow", ["pow", t[0], t[1]], t[2]], t[3]])
+    expr = st.one_of(st.integers(1, 4).flatmap(num), st.integers(1, 4).flatmap(num), st.integers(1, 3).flatmap(boolean),
+                     nested_pow)
 
     @st.composite
     def cases(draw):
